@@ -19,6 +19,9 @@ def r5(ctx):
 
 
 RULES = {
+    # the data-URL round trip writes through the accessors and iterators of the map
+    "C18.R0": lambda ctx: __import__("rules.foundations", fromlist=["x"]).accessors(ctx, "C18.R0", None),
+    "C18.R0b": lambda ctx: __import__("rules.encrules", fromlist=["x"]).only_duplicates_skipped(ctx, "C18.R0b"),
     "C18.RL": lambda ctx: __import__("rules.common", fromlist=["x"]).loop_exit_rule(ctx, "C18.RL", {'detector::locate_sourcemap_reference': 2}),
     "C18.R1": lambda ctx: detrules.comment_scan(ctx, "C18.R1"),
     "C18.R2": lambda ctx: detrules.data_url_pairing(ctx, "C18.R2"),
